@@ -26,7 +26,32 @@ class Unsupported(Exception):
     pass
 
 
-def materialise(g, want_objs=False):
+from collections import namedtuple
+
+Pair = namedtuple("Pair", "left right")      # a tuple subclass: every stock builder must treat it as a tuple
+_other_builder = []
+
+
+def define_other_builder():
+    """Somebody else's Builder subclass with its own handling of Pair, merely DEFINED in this process (never used): class-level
+    registries must not be shared between builder classes."""
+    if _other_builder:
+        return
+    import graphtage
+    from graphtage import builder as gb
+
+    class SomebodyElsesBuilder(gb.BasicBuilder):
+        @gb.Builder.expander(Pair)
+        def expand_pair(self, obj):
+            yield obj.left
+
+        @gb.Builder.builder(Pair)
+        def build_pair(self, obj, children):
+            return graphtage.StringNode("a pair, as somebody else's builder sees it")
+    _other_builder.append(SomebodyElsesBuilder)
+
+
+def materialise(g, want_objs=False, named=True):
     """Real Python objects for graph g (list of {kind, kids}); returns the object for node 1."""
     objs = {}
     state = {}
@@ -45,6 +70,8 @@ def materialise(g, want_objs=False):
                 raise Unsupported("a cycle through tuples only cannot exist in Python")
             state[n] = "building"
             val = tuple(target(t) for t in node["kids"])
+            if named and len(val) == 2 and n % 2 == 1:
+                val = Pair(*val)            # a named tuple in every second two-slot tuple position
             state[n] = "done"
             objs[n] = val
             return val
@@ -121,8 +148,9 @@ def convert(g, entry, strategy, check, ignore):
     from harness.watchdog import Expired, deadline
     rec = {"g": g, "check": check, "ignore": ignore, "strict": entry != "json", "outcome": "value", "paths": [],
            "copied": True, "copyPaths": [], "exc": ""}
+    define_other_builder()
     try:
-        obj, objs = materialise(g, True)
+        obj, objs = materialise(g, True, named=entry not in ("ast", "pickle"))      # (source text / pickles: plain tuples)
     except Unsupported:
         return None
     opts = graphtage.BuildOptions(allow_key_edits=(strategy != "none"), auto_match_keys=(strategy == "auto"),
